@@ -362,4 +362,66 @@ theorem C29_pg_index (xs : List α) (i : Int) : pgIndex xs i = listGet xs i := b
     bounds) the emitted slice is Python's for all bounds.  Checked by the engine on the grid through the driver only. -/
 def C29_pg_slice_full : Prop := ∀ (xs : List Int) (a b : Option Int), pgSlice xs a b = pySlice xs a b
 
+/-! ### several JSON paths in one statement: composite parameters are shared by key -/
+
+/-- **The composite-parameter key is injective in the path**: two paths with the same key are the same path (parameters and constants,
+    integer indexes and string keys alike), so sharing a parameter by key never merges different paths -/
+theorem C29_paramkey_injective (a b : List PathItem) (h : paramKey a = paramKey b) : a = b := by
+  induction a generalizing b with
+  | nil => cases b with
+    | nil => rfl
+    | cons y ys => simp [paramKey] at h
+  | cons x xs ih =>
+    cases b with
+    | nil => simp [paramKey] at h
+    | cons y ys =>
+      simp only [paramKey, List.map_cons, List.cons.injEq] at h
+      have hxy : x = y := by
+        cases x with
+        | param i => cases y with
+          | param j => simp [keyPart] at h; rw [h.1]
+          | const k => cases k <;> simp [keyPart] at h
+        | const k => cases y with
+          | param j => cases k <;> simp [keyPart] at h
+          | const k' => cases k <;> cases k' <;> simp [keyPart] at h <;> rw [h.1]
+      rw [hxy, ih ys h.2]
+
+/-- every entry of `builder.keys` is filed under the key of its own items -/
+def regOk (reg : Registry) : Prop := ∀ e ∈ reg, e.1 = paramKey e.2
+
+theorem lookup_mem (reg : Registry) (k : List KeyPart) (its : List PathItem) (h : reg.lookup k = some its) : (k, its) ∈ reg := by
+  induction reg with
+  | nil => simp [List.lookup] at h
+  | cons e es ih =>
+    obtain ⟨k', its'⟩ := e
+    simp only [List.lookup] at h
+    split at h
+    · rename_i heq
+      have hk : k = k' := by simpa using heq
+      cases h; subst hk; simp
+    · exact List.mem_cons_of_mem _ (ih h)
+
+/-- **Each path gets its own text.**  Whatever was built before in the statement, the composite parameter handed back for a path consists
+    of exactly that path's items (and the registry stays consistent): the value bound at execution is `eval_json_path` of this path. -/
+theorem C29_composite_shared_sound (W : Char → Bool) (env : Nat → Key) (reg : Registry) (hreg : regOk reg) (items : List PathItem) :
+    (makeComposite reg items).1 = items ∧ regOk (makeComposite reg items).2 ∧
+    evalComposite W env (makeComposite reg items).1 = evalJsonPath W (items.map (resolveItem env)) := by
+  unfold makeComposite
+  cases hl : reg.lookup (paramKey items) with
+  | none =>
+    refine ⟨rfl, ?_, rfl⟩
+    intro e he
+    simp only [List.mem_cons] at he
+    rcases he with he | he
+    · subst he; rfl
+    · exact hreg e he
+  | some its =>
+    have hm := lookup_mem reg _ its hl
+    have hk : paramKey items = paramKey its := hreg _ hm
+    have : its = items := (C29_paramkey_injective items its hk).symm
+    subst this
+    exact ⟨rfl, hreg, rfl⟩
+
+example : paramKey [.param 0, .const (.idx 0)] ≠ paramKey [.param 0, .const (.idx 1)] := by decide
+
 end PonyVerif.Props.C29
